@@ -694,6 +694,12 @@ func classifyIndex(w *World, fn *ssa.Function, in ssa.Instruction, coll, idx ssa
 				if ok2, _ := w.provablyNonEmpty(coll, nil, 0); ok2 && k == 1 {
 					return kind, "G3", "len-1 of a provably non-empty slice"
 				}
+				// the accumulator of a loop over the runes of a capture group that cannot be empty, read after the loop
+				if phi, isPhi := coll.(*ssa.Phi); isPhi && k == 1 && afterLoopOf(phi.Block(), b) {
+					if ok2, why := w.provablyNonEmpty(coll, func(v ssa.Value) bool { return nonEmptyGroupElem(w, v, nonEmpty) }, 0); ok2 {
+						return kind, "G3", "len-1 after the loop: " + why
+					}
+				}
 				// len(opts) > 0 tested on a phi of the same accumulator
 				for _, f := range factsAt(b) {
 					if f.Y != nil && f.Op == token.GTR {
@@ -901,6 +907,29 @@ func sameAccessor(a, b ssa.Value) bool {
 		return false
 	}
 	return calleeName(ca) == nIterValue && calleeName(cb) == nIterValue && ca.Call.Args[0] == cb.Call.Args[0]
+}
+
+// afterLoopOf: block b is reached only through the exit edge of the loop headed by header.
+func afterLoopOf(header, b *ssa.BasicBlock) bool {
+	if len(header.Succs) != 2 {
+		return false
+	}
+	var exit *ssa.BasicBlock
+	for _, s := range header.Succs {
+		inLoop := false
+		for _, p := range header.Preds {
+			if s.Dominates(p) {
+				inLoop = true
+			}
+		}
+		if !inLoop {
+			if exit != nil {
+				return false
+			}
+			exit = s
+		}
+	}
+	return exit != nil && len(exit.Preds) == 1 && exit.Dominates(b)
 }
 
 func nonEmptyGroupElem(w *World, v ssa.Value, nonEmpty map[*ssa.Global][]bool) bool {
@@ -1149,6 +1178,34 @@ func classifyLoop(w *World, fn *ssa.Function, h *ssa.BasicBlock) (kind string, o
 					return "counter", false, "the bound changes inside the loop"
 				case bo.Op == token.LSS:
 					return "counter", true, "strictly increasing counter with strict upper bound"
+				case bo.Op == token.NEQ:
+					// j != hi: reached exactly when the counter steps by one from a start below hi
+					one := true
+					var start ssa.Value
+					for i, e := range phi.Edges {
+						if h.Dominates(h.Preds[i]) {
+							if k, _ := constInt(e.(*ssa.BinOp).Y); k != 1 {
+								one = false
+							}
+						} else if start == nil {
+							start = e
+						} else if start != e {
+							one = false
+						}
+					}
+					below := false
+					for _, f := range factsAt(h) {
+						if f.Y == nil {
+							continue
+						}
+						if (f.Op == token.LSS || f.Op == token.LEQ) && f.X == start && f.Y == bo.Y || (f.Op == token.GTR || f.Op == token.GEQ) && f.Y == start && f.X == bo.Y {
+							below = true
+						}
+					}
+					if one && start != nil && below {
+						return "counter", true, "counter stepping by one from a start that is not above the bound it is compared with for inequality"
+					}
+					return "counter", false, "bound `j != hi` without start <= hi established before the loop (or a step other than one): the counter can pass the bound and the loop never ends"
 				case bo.Op == token.LEQ:
 					// inclusive: safe only if the bound cannot be MaxInt
 					if boundBelowMaxInt(bo.Y) {
